@@ -157,7 +157,7 @@ def gen_op(rng, tree, scratch, counter):
     expr = rng.choice(list(targets))
     node = targets[expr]
     lazy = isinstance(node, LazyStackedTensorDict)
-    kinds = ["names_new", "names_none", "names_same", "names_first", "inplace", "memmap", "memmap", "batch_size", "share", "relock", "nt_index", "rename",
+    kinds = ["names_new", "names_none", "names_same", "names_first", "inplace", "memmap", "memmap", "batch_size", "share", "relock", "nt_index", "nt_index", "nt_index", "rename",
              "clear_device", "auto_device", "auto_batch_size", "index_write", "requires_grad", "make_memmap", "make_memmap_from_tensor", "refine_names"]
     if lazy:
         kinds += ["names_stackdim", "names_stackdim", "names_stackdim"]
@@ -234,11 +234,23 @@ def gen_op(rng, tree, scratch, counter):
     if k == "relock":
         return k, f"{expr}.lock_()", lambda: node.lock_()
     if k == "nt_index":
+        with_nt = [(e, n) for e, n in tree.nodes.items() if not isinstance(n, LazyStackedTensorDict) and hasattr(n, "_tensordict") and "nt" in n._tensordict]
+        if with_nt:
+            expr, node = rng.choice(with_nt)
+
         def f():
             if "nt" not in node.keys():
                 raise KeyError("nt")
-            node[0] = TensorDict({"nt": "w"}, batch_size=node.batch_size[1:])
-        return k, f"{expr}[0] = TensorDict({{'nt': 'w'}})", f
+            node[idx] = TensorDict({"nt": payload}, batch_size=node.batch_size[1:])
+        counter[0] += 1
+        idx, payload = counter[0] % 2, f"w{counter[0]}"
+        try:
+            ent = node._tensordict.get("nt") if hasattr(node, "_tensordict") else None
+            if ent is not None and isinstance(ent, LazyStackedTensorDict) and any(getattr(m, "_is_memmap", False) or m.is_memmap() for m in ent.tensordicts):
+                k = "nt_index_memmap"      # known finding: a memory-mapped non-tensor stack is updated in place, nothing is invalidated
+        except Exception:  # noqa
+            pass
+        return k, f"{expr}[{idx}] = TensorDict({{'nt': {payload!r}}})   # (a second write lands on an entry that is a stack already)", f
     raise AssertionError(k)
 
 
